@@ -77,6 +77,9 @@ def gen_doc(rng, st):
             ident["userName"] = rng.pick(USERS)
         if rng.chance(1, 3):
             ident["groupName"] = rng.pick(GROUPS)
+        if rng.chance(1, 12):
+            # an attribute that is present but empty is still a condition (nobody has an empty user / process / group name)
+            ident[rng.pick(["userName", "groupName", "processName", "exePath"])] = ""
         if rng.chance(1, 3):
             e = rng.pick(EXES)
             if rng.chance(1, 3):
@@ -113,13 +116,13 @@ def gen_claims(rng, doc):
          "proc": rng.pick(PROCS), "exe": rng.pick(EXES)}
     if idents and rng.chance(3, 5):
         i = rng.pick(idents)  # make this identity match
-        if "userName" in i:
+        if i.get("userName"):
             c["user"] = i["userName"]
-        if "groupName" in i and i["groupName"] not in c["groups"]:
+        if i.get("groupName") and i["groupName"] not in c["groups"]:
             c["groups"].append(i["groupName"])
-        if "processName" in i:
+        if i.get("processName"):
             c["proc"] = i["processName"]
-        if "exePath" in i:
+        if i.get("exePath"):
             c["exe"] = rng.pick(EXES) if rng.chance(1, 10) else [e for e in EXES if e.split("/")[-1] in i["exePath"]][0]
     return c
 
